@@ -236,3 +236,82 @@ def simulate(module, cfg, num, depth, seed, env=None, timeout=600, tag=None, wor
             behaviours.append(open(fp).read())
     cleanup(wd)
     return dict(out=p.stdout, exit=p.returncode, files=behaviours, wall_s=round(time.time() - t0, 2))
+
+
+# ---------------------------------------------------------------- behaviours written by `-simulate file=`
+def _tla_value(s, i=0):
+    """tiny parser for the TLA+ values TLC prints in state dumps: ints, booleans, strings, <<tuples>>, {sets}, [records]"""
+    n = len(s)
+    while i < n and s[i].isspace():
+        i += 1
+    if s.startswith("<<", i):
+        i += 2
+        out = []
+        while True:
+            while s[i].isspace():
+                i += 1
+            if s.startswith(">>", i):
+                return out, i + 2
+            v, i = _tla_value(s, i)
+            out.append(v)
+            while s[i].isspace():
+                i += 1
+            if s[i] == ",":
+                i += 1
+    if s[i] == "{":
+        i += 1
+        out = []
+        while True:
+            while s[i].isspace():
+                i += 1
+            if s[i] == "}":
+                return out, i + 1
+            v, i = _tla_value(s, i)
+            out.append(v)
+            while s[i].isspace():
+                i += 1
+            if s[i] == ",":
+                i += 1
+    if s[i] == "[":
+        i += 1
+        out = {}
+        while True:
+            while s[i].isspace():
+                i += 1
+            if s[i] == "]":
+                return out, i + 1
+            j = s.index("|->", i)
+            k = s[i:j].strip()
+            v, i = _tla_value(s, j + 3)
+            out[k] = v
+            while s[i].isspace():
+                i += 1
+            if s[i] == ",":
+                i += 1
+    if s[i] == '"':
+        j = s.index('"', i + 1)
+        return s[i + 1:j], j + 1
+    j = i
+    while j < n and (s[j].isalnum() or s[j] in "-_"):
+        j += 1
+    tok = s[i:j]
+    if tok == "TRUE":
+        return True, j
+    if tok == "FALSE":
+        return False, j
+    return int(tok), j
+
+
+def parse_behaviour(text):
+    """-> list of (action name, {variable: python value}) for one behaviour file of `tlc -simulate file=...`"""
+    import re
+    out = []
+    for m in re.finditer(r"\\\* <(\w+)(?:\(([^)]*)\))? [^>]*>\s*\nSTATE_\d+ ==\s*\n((?:/\\ .*\n)+)", text):
+        act, body = m.group(1) + (("(" + m.group(2) + ")") if m.group(2) is not None else ""), m.group(3)
+        st = {}
+        for line in body.strip().split("\n"):
+            mm = re.match(r"/\\ (\w+) = (.*)$", line.strip())
+            if mm:
+                st[mm.group(1)] = _tla_value(mm.group(2))[0]
+        out.append((act, st))
+    return out
